@@ -102,7 +102,13 @@ func c16Packet(r *vlib.Rand, id int) c16Item {
 		caplen = r.Range(14+20+8+8, len(full)) // snapped, the id survives
 	}
 	it.data = full[:caplen]
-	it.ci = gopacket.CaptureInfo{Timestamp: time.Unix(1_500_000_000+int64(id), int64(id)*1000), CaptureLength: caplen, Length: len(full), InterfaceIndex: id % 7}
+	wire := len(full)
+	if caplen == len(full) && r.Chance(1, 5) {
+		// the snap length cut only a trailer behind the IP datagram (frame check sequence, padding): every header and the
+		// payload are complete, no decoder can notice - the mark has to come from caplen < len alone
+		wire += r.Range(1, 40)
+	}
+	it.ci = gopacket.CaptureInfo{Timestamp: time.Unix(1_500_000_000+int64(id), int64(id)*1000), CaptureLength: caplen, Length: wire, InterfaceIndex: id % 7}
 	if r.Chance(1, 10) {
 		it.ci.AncillaryData = []interface{}{id}
 	}
